@@ -27,7 +27,8 @@ def _variants(ctx, n):
 
 
 def correspondence(ctx):
-    return FL.correspondence(ctx, PID, dict(addregions=False), 50, 1200)
+    # junk=True: flags, bare codes and M206 home offsets (set, changed, reset) as the code has them -- model and code must agree on them too
+    return FL.correspondence(ctx, PID, dict(addregions=False, junk=True), 50, 1200)
 
 
 def oracle(ctx, budget=1, replay=None, hints=None):
